@@ -1,6 +1,6 @@
 """C09 - cyclic configurations are always rejected and nothing is executed."""
 import graphs
-THEOREMS = [("Properties.C09", "C09_holds")]
+THEOREMS = [("Properties.C09", "C09_holds"), ("Properties.C09", "C09_index_holds")]
 CORRESPONDENCE = "Dag / Index::new / analyze on cyclic inputs == Model.Dag.api_groups (ErrCycle)"
 LEVEL_NOTE = ("Coq theorem C09_holds (graph level, unbounded): whenever a cycle is reachable from the roots the model of the grouping API returns "
               "ErrCycle - never Ok, never Panic (usize underflow / index out of range), never fuel exhaustion, so termination is part of the "
